@@ -1,6 +1,36 @@
-"""C03 - every data field decodes to the value its bits encode (under construction: D1,D2,D3,D5 first)."""
+"""C03 - every data field decodes to the value its bits encode, for all message types."""
+
 from . import decoder as DEC
+from . import shared as SH
 from . import tablerules as TR
-META = {"explanation": "under construction", "trusted": []}
+
+META = {
+    "explanation": (
+        "Static analysis of the generic decoder against a reference decoding schema, by partial evaluation: the single-field routine is specialised on every one of the "
+        "513 data-field descriptors (the descriptor folds from the constant-folded table) and the residual terms are compared in the bit-field / polynomial domains - "
+        "D1 extraction = bits [offset, offset+w) MSB first, D2 value per data type, D3 scaling, D5 returned offset = offset + w (NSat*NSig for the cell mask); "
+        "D4 naming (key + '_NN' per index level, text un-indexed); D5b linear threading of (offset, index) through the driver and the recursive routines; D6 group routine "
+        "specialised on every distinct count designator of the tables (ints, names, '+n' names, +1 for the layer counter; index push/set/pop); D7 optional groups; "
+        "D8 dispatch on the shape of the definition value; D9 derived counts (population counts, harmonic-coefficient polynomial identity); D10 nothing else reads the payload; "
+        "D11 no other public attribute; T-rules: the tables are well-typed for that schema (C10-D1..D4). Floating-point rounding of val*resolution and UTF-8 "
+        "interpretation of text units are not decided; whether table widths are the standard's is C10."
+    ),
+    "trusted": ["CPython ast parser", "sa/symeval.py partial evaluator", "sa/domains.py", "sa/consteval.py"],
+}
+
+
 def run(eng, ctx):
-    DEC.field_values(eng, ctx, "C03.D1", "C03.D2", "C03.D3", "C03.D5")
+    m = DEC.field_values(eng, ctx, "C03.D1", "C03.D2", "C03.D3", "C03.D5")
+    if m.payload_field and m.int_field and m.blen_field:
+        DEC.naming(eng, ctx, "C03.D4", m)
+        DEC.threading(eng, ctx, "C03.D5b", m)
+        DEC.groups(eng, ctx, "C03.D6", "C03.D7", "C03.D8", m)
+        SH.derived_counts(eng, ctx, "C03.D9")
+        DEC.harmonic_counts(eng, ctx, "C03.D9b", m)
+        DEC.payload_uses(eng, ctx, "C03.D10", m)
+        DEC.public_attributes(eng, ctx, "C03.D11", m)
+    TR.grammar(eng, ctx, "C10.D1")
+    TR.fields_defined(eng, ctx, "C10.D2")
+    TR.scoping(eng, ctx, "C10.D3")
+    TR.dispatch(eng, ctx, "C10.D4")
+    ctx.instance("definitions typed", sum(1 for _ in eng.tables.definitions()), 152)
